@@ -95,6 +95,14 @@ type ContractDB struct {
 	errors  []string
 	fset    *token.FileSet
 	sweeps  map[*packages.Package]*sweepSpec
+	typeInvs map[string][]typeInv // "pkgpath.TypeName" -> invariants
+}
+
+type typeInv struct {
+	label string
+	text  string // uses "self" for the pointer to the object
+	props []string
+	line  string
 }
 
 type sweepSpec struct {
@@ -126,7 +134,7 @@ func parseClauseHead(rest string) (props []string, label, text string) {
 }
 
 func loadContracts(prog *ssa.Program, pkgs []*packages.Package) *ContractDB {
-	db := &ContractDB{byFn: map[*ssa.Function]*Contract{}, byKey: map[string]*Contract{}, files: map[*packages.Package]*ast.File{}, fset: prog.Fset, sweeps: map[*packages.Package]*sweepSpec{}}
+	db := &ContractDB{byFn: map[*ssa.Function]*Contract{}, byKey: map[string]*Contract{}, files: map[*packages.Package]*ast.File{}, fset: prog.Fset, sweeps: map[*packages.Package]*sweepSpec{}, typeInvs: map[string][]typeInv{}}
 	for _, pkg := range pkgs {
 		for i, f := range pkg.Syntax {
 			name := pkg.CompiledGoFiles[i]
@@ -197,6 +205,12 @@ func (db *ContractDB) parseFile(prog *ssa.Program, pkg *packages.Package, f *ast
 				db.byFn[fn] = cur
 				db.byKey[cur.Key] = cur
 				lastClause = nil
+			case "typeinv":
+				// typeinv TypeName [props] label: expr over self
+				tn, r2, _ := strings.Cut(rest, " ")
+				props, label, text := parseClauseHead(strings.TrimSpace(r2))
+				key := pkg.PkgPath + "." + strings.TrimSuffix(tn, ":")
+				db.typeInvs[key] = append(db.typeInvs[key], typeInv{label: label, text: text, props: props, line: where})
 			case "sweep":
 				// sweep safety C05 [exclude a,b]
 				spec := &sweepSpec{}
@@ -532,10 +546,22 @@ func (db *ContractDB) compile(cl *Clause, pkg *packages.Package, resolve nameRes
 	var order []string
 	skip := map[*ast.Ident]bool{}
 	boundNames := map[string]bool{}
+	imports := map[string]bool{}
+	for _, im := range file.Imports {
+		if im.Name != nil {
+			imports[im.Name.Name] = true
+		} else {
+			p := strings.Trim(im.Path.Value, `"`)
+			imports[p[strings.LastIndex(p, "/")+1:]] = true
+		}
+	}
 	ast.Inspect(e, func(n ast.Node) bool {
 		switch n := n.(type) {
 		case *ast.SelectorExpr:
 			skip[n.Sel] = true
+			if id, ok := n.X.(*ast.Ident); ok && imports[id.Name] {
+				skip[id] = true // package qualifier, even if a local of that name exists
+			}
 		case *ast.KeyValueExpr:
 			if id, ok := n.Key.(*ast.Ident); ok {
 				skip[id] = true
